@@ -178,6 +178,7 @@ func (mi *MessageInfo) unmarshalPointerLazy(b []byte, p pointer, groupTag protow
 	var lazy **protolazy.XXX_lazyUnmarshalInfo
 	var presence presence
 	var lazyIndex []protolazy.IndexEntry
+	var lastIndexed bool // the previous record was added to lazyIndex
 	var lastNum protowire.Number
 	outOfOrder := false
 	lazyDecode := false
@@ -376,8 +377,13 @@ func (mi *MessageInfo) unmarshalPointerLazy(b []byte, p pointer, groupTag protow
 		}
 		b = b[n:]
 		end := start - len(b)
-		if lazyDecode && f != nil && f.isLazy {
-			if num != lastNum {
+		// A record of a lazy field that was handled as an unknown field (wrong
+		// wire type) is kept in the unknown fields, not in the lazy index:
+		// otherwise it would be written twice when the field is marshaled
+		// from the lazy buffer. It also ends a run of contiguous records.
+		indexed := lazyDecode && f != nil && f.isLazy && !(err == errUnknown && !discardUnknown)
+		if indexed {
+			if num != lastNum || !lastIndexed {
 				lazyIndex = append(lazyIndex, protolazy.IndexEntry{
 					FieldNum: uint32(num),
 					Start:    uint32(pos),
@@ -394,6 +400,7 @@ func (mi *MessageInfo) unmarshalPointerLazy(b []byte, p pointer, groupTag protow
 		}
 		pos = end
 		lastNum = num
+		lastIndexed = indexed
 	}
 	if groupTag != 0 {
 		return out, errors.New("missing end group marker")
